@@ -1,0 +1,26 @@
+//go:build verif
+
+package transfer
+
+// Contracts for the deductive verifier in /verif (govc). Comment-only; compiled only with -tags verif.
+
+//@ import sdkmath cosmossdk.io/math
+
+// ---- C32 / C49: the IBC v1 transfer application refunds only the packet's original sender, on an error
+// acknowledgement or a timeout; a result acknowledgement changes nothing
+
+//@ contract (IBCModule).OnAcknowledgementPacket
+//@   let data = nth(types.UnmarshalPacketData(packet.Data, channelVersion, ""), 0)
+//@   let L0 = ledger(ctx)
+//@   modifies world(ctx)
+//@   ensures failed_unchanged: err != nil ==> world(ctx) == old(world(ctx))
+//@   ensures only_original_sender_credited: forall a string, x string :: err == nil && a != bech32dec(data.Sender) ==> bal(ledger(ctx), a, x) <= bal(L0, a, x)
+//@   ensures refund_or_nothing: err == nil ==> world(ctx) == old(world(ctx)) || ledger(ctx) == refundLedger(L0, packet.SourcePort, packet.SourceChannel, data.Token, bech32dec(data.Sender))
+
+//@ contract (IBCModule).OnTimeoutPacket
+//@   let data = nth(types.UnmarshalPacketData(packet.Data, channelVersion, ""), 0)
+//@   let L0 = ledger(ctx)
+//@   modifies world(ctx)
+//@   ensures failed_unchanged: err != nil ==> world(ctx) == old(world(ctx))
+//@   ensures refunded: err == nil ==> ledger(ctx) == refundLedger(L0, packet.SourcePort, packet.SourceChannel, data.Token, bech32dec(data.Sender))
+//@   ensures only_original_sender_credited: forall a string, x string :: err == nil && a != bech32dec(data.Sender) ==> bal(ledger(ctx), a, x) <= bal(L0, a, x)
